@@ -45,6 +45,47 @@ func genC27(g *gen) {
 	}
 	sort.Strings(kinds)
 	g.line("Definition gen_check_last_kinds : list string := %s.", coqStringList(kinds))
+	// the typeflags the switch handles, per case clause (anything that is extracted like a
+	// directory or a regular file must be in the check-last list)
+	var clauses []string
+	if fd != nil {
+		ast.Inspect(fd.Body, func(n ast.Node) bool {
+			sw, ok := n.(*ast.SwitchStmt)
+			if !ok || nospaceFs(src(sw.Tag)) != "header.Typeflag" {
+				return true
+			}
+			for _, st := range sw.Body.List {
+				cc, ok := st.(*ast.CaseClause)
+				if !ok || cc.List == nil {
+					continue
+				}
+				var fl []string
+				for _, e := range cc.List {
+					fl = append(fl, strings.TrimPrefix(nospaceFs(src(e)), "tar."))
+				}
+				sort.Strings(fl)
+				clauses = append(clauses, strings.Join(fl, "+"))
+			}
+			return false
+		})
+	}
+	g.line("Definition gen_switch_clauses : list string := %s.", coqStringList(clauses))
+	// the directory branch of WriteUploadedFile does nothing to the tree besides UntarDirectory
+	sf := parseFile("internal/filetransfer/stream.go")
+	var dirCalls []string
+	if wf := findFunc(sf, "StreamHandler", "WriteUploadedFile"); wf != nil && wf.Body != nil {
+		for _, st := range wf.Body.List {
+			if ifs, ok := st.(*ast.IfStmt); ok && nospaceFs(src(ifs.Cond)) == "isDirectory" {
+				ast.Inspect(ifs.Body, func(n ast.Node) bool {
+					if call, ok := n.(*ast.CallExpr); ok {
+						dirCalls = append(dirCalls, nospaceFs(src(call.Fun)))
+					}
+					return true
+				})
+			}
+		}
+	}
+	g.line("Definition gen_upload_dir_branch_calls : list string := %s.", coqStringList(dirCalls))
 	// hard links: the link target is checked including its last component, inside the TypeLink case
 	iLink := strings.Index(body, "casetar.TypeLink:")
 	iLT := strings.Index(body, "ensureNoSymlinks(destDir,linkTarget,true)")
